@@ -6,6 +6,7 @@ import GcmpyModel.Driver.C05
 import GcmpyModel.Driver.Loaders
 import GcmpyModel.Driver.C18
 import GcmpyModel.Driver.Mix
+import GcmpyModel.Driver.C15
 /-! Line protocol: one JSON request per line on stdin, one JSON reply per line on stdout.
     The driver only *executes* the model's definitions; it is outside the proofs. -/
 open Lean Gcmpy.Driver
@@ -23,6 +24,7 @@ def dispatch (j : Json) : R Json := do
   | "c18" => C18.handle j
   | "c13" => Mix.c13 j
   | "c14" => Mix.c14 j
+  | "c15" => C15.handle j
   | "ping" => pure (obj [("pong", Json.bool true)])
   | _ => throw s!"unknown op {op}"
 
